@@ -49,6 +49,10 @@ pub struct ConnMon {
     pub inst_recvd: u64,
     pub inst_sent: u64,
     pub inst_count: BTreeMap<SocketAddr, u32>,
+    /// every change of Transmit.destination: (time, new destination)
+    pub dest_log: Vec<(u64, SocketAddr)>,
+    /// every transmit: (time, destination, bytes), kept only when `log_transmits` is on
+    pub tx_log: Vec<(u64, SocketAddr, u32)>,
     /// C05 credit ledger: what the peer has advertised to this sender (superset)
     pub led_on: bool,
     pub led_max_data: u64,
@@ -94,6 +98,8 @@ pub struct Mon {
     pub enable_c05: bool,
     /// C06 credit monitor (MAX_DATA / MAX_STREAM_DATA vs. application consumption)
     pub enable_credit: bool,
+    /// record every transmit's destination and size per connection (C15)
+    pub log_transmits: bool,
     /// every Incoming an endpoint produced: (endpoint, remote, validated, may_retry)
     pub incoming_log: Vec<(usize, SocketAddr, bool, bool)>,
     /// honest-peer world: any transport error between the peers is itself a finding
@@ -181,6 +187,7 @@ impl Mon {
             enable_c12: true,
             enable_c05: true,
             enable_credit: false,
+            log_transmits: false,
             incoming_log: vec![],
             honest: true,
             rebinds: 0,
@@ -675,7 +682,14 @@ impl Mon {
             }
         }
 
+        let log_tx = self.log_transmits;
         if let Some(cm) = self.conns.get_mut(&(ei, ch)) {
+            if cm.dest_log.last().map(|x| x.1) != Some(t.destination) {
+                cm.dest_log.push((now, t.destination));
+            }
+            if log_tx {
+                cm.tx_log.push((now, t.destination, t.size as u32));
+            }
             cm.last_tx_ns = now;
             cm.max_pto_ns = cm.max_pto_ns.max(post.pto_data.as_nanos() as u64).max(pre.probe.pto_data.as_nanos() as u64);
             if cm.awaiting_close_tx {
